@@ -179,7 +179,10 @@ def run(ck):
                "chunkings on two grids in shuffled order + one upload per single-parameter change (secret, k, N, max "
                "segment size with changed effective value, max segment size with unchanged effective value) + two "
                "convergence=None uploads; sizes biased to 0/1/54-57, k and segment multiples +-1, 64KiB+-1; distinct = "
-               "(size,k,N,maxseg,kinds,perturbations); non-trivial = CHK (size>55) or literal boundary (54-55)")
+               "(size,k,N,maxseg,kinds,perturbations); non-trivial = CHK (size>55) or literal boundary (54-55). Every "
+               "fifth case is a directory case: one set of immutable children is turned into an immutable directory "
+               "through Client.create_immutable_dirnode / NodeMaker.create_immutable_directory on two clients with "
+               "different private secrets, with convergence in {omitted, b'', b'x', the node's own secret spelled out}")
     i = 0
     min_cases = 40 if ck.tier == "quick" else 150
     while ck.more(min_cases=min_cases):
@@ -187,10 +190,19 @@ def run(ck):
         if not ck.mine(i):
             continue
         rng = ck.rng("case", i)
+        j = (i - 1) // ck.nshards
         with ck.watchdog(240, "case %d" % i):
-            one_case(ck, rng, i, VGrid, uri)
+            if j % 5 == 4:
+                dir_case(ck, rng, i, j // 5, VGrid, uri)      # the other entry point that takes a convergence secret
+            else:
+                one_case(ck, rng, i, VGrid, uri)
     ck.require_monitor("key-model", "storage-index-model", "same-inputs-same-cap", "perturbation-changes-storage-index",
-                       "literal-model", "random-keys-differ")
+                       "literal-model", "random-keys-differ", "directory-key-model", "directory-equals-direct-upload",
+                       "directory-same-secret-same-cap", "directory-secret-changes-storage-index")
+    ck.require_reach("immutable-directory-chk", "immutable-directory-literal", "directory-secret:default",
+                     "directory-secret:explicit-empty", "directory-secret:explicit-node-secret",
+                     "directory-secret:explicit-other", "directory-via:client", "directory-via:nodemaker",
+                     "directory-empty-secret-on-two-nodes")
     ck.require_reach("chk", "literal", "size-55", "size-56", "secret-changed", "k-changed", "n-changed",
                      "maxseg-changed-effective-changed", "maxseg-changed-effective-same", "effective-differs-from-max",
                      "second-grid", "kind:data", "kind:filehandle", "kind:chunky", "kind:filename", "kind:shortread",
@@ -299,6 +311,160 @@ def one_case(ck, rng, i, VGrid, uri):
     ck.case("literal" if is_lit else "chk",
             key=(size, k, n, maxseg, tuple(kinds), tuple(sorted(s["role"] for s in specs))),
             nontrivial=(not is_lit) or size >= 54, sample=dict(desc, uploads=[_s(s) for s in specs][:6]))
+
+
+def dir_case(ck, rng, i, t, VGrid, uri):
+    """Immutable directories are immutable uploads of the packed children made with a caller-supplied convergence
+    secret (None = the node's private secret).  Same oracle as for files: the cap is a function of (packed bytes,
+    secret, k, N, segment size) and nothing else; b"" is a secret like any other."""
+    from allmydata.immutable.upload import Data
+    n = rng.choice([1, 2, 3, 3, 4, 5])
+    k = rng.randint(1, n)
+    maxseg = rng.choice([k, 16, 56, 64, 100, 1024, 131072])
+    nchild = 0 if t % 4 == 0 else rng.choice([2, 2, 3, 4, 6, 9])
+    sA = rng.choice([b"node-secret-A", rng.randbytes(32), rng.randbytes(16)])
+    sB = rng.choice([b"node-secret-B", rng.randbytes(32)])
+    specs_children = []
+    for ci in range(nchild):
+        name = rng.choice(["f%d", "file-%d.txt", "\u00e4%d", "d%d"]) % ci
+        specs_children.append((name, imm.gen_data(rng, rng.randint(0, 55)), rng.choice([{}, {}, {"n": ci}, {"tag": "x" * ci}])))
+    desc = dict(part="immutable-directory", k=k, n=n, maxseg=maxseg, children=nchild, node_secret_A=sA, node_secret_B=sB)
+    g = VGrid(nservers=rng.randint(1, 4), seed=rng.getrandbits(32), profile=PROFILES[i % 3], keep_log=False)
+    try:
+        cl = {"A": g.make_client(k=k, happy=1, n=n, max_segment_size=maxseg, convergence=sA),
+              "B": g.make_client(k=k, happy=1, n=n, max_segment_size=maxseg, convergence=sB)}
+        own = {"A": sA, "B": sB}
+        for nm in ("A", "B"):
+            if cl[nm].convergence != own[nm]:
+                ck.violation("client-convergence-secret-not-the-configured-one",
+                             "private/convergence holds %r, client.convergence is %r" % (own[nm], cl[nm].convergence), desc)
+        chk_child = None
+        if nchild and rng.random() < .3:      # one real CHK child among the literal ones
+            st, res = g.wait(cl["A"].upload(Data(imm.gen_data(rng, rng.randint(56, 300)), convergence=b"")))
+            if st == "ok":
+                chk_child = res.get_uri()
+
+        def children_for(c):
+            out = {}
+            for ci, (name, body, md) in enumerate(specs_children):
+                cap = chk_child if (ci == 0 and chk_child) else model_lit(body)
+                out[name] = (c.create_node_from_uri(cap), dict(md))
+            return out
+        variants = [("A", "client", None), ("A", "client", sA), ("A", "nodemaker", b""), ("B", "client", b""),
+                    ("A", "client", b"x"), ("B", "nodemaker", None), ("B", "client", b"x"), ("A", "nodemaker", sA),
+                    ("B", "nodemaker", b"")]
+        variants = [v for v in variants if rng.random() < .8 or v[2] == b""]
+        rng.shuffle(variants)
+        made = []
+        for (nm, via, arg) in variants:
+            c = cl[nm]
+            kids = children_for(c)
+            if via == "client":
+                d = c.create_immutable_dirnode(kids) if arg is None and rng.random() < .5 else c.create_immutable_dirnode(kids, arg)
+            else:
+                d = c.nodemaker.create_immutable_directory(kids, arg)
+            st, dn = g.wait(d)
+            v = dict(client=nm, via=via, secret_arg=arg, effective=own[nm] if arg is None else arg, status=st)
+            ck.hit("directory-via:" + via)
+            ck.hit("directory-secret:" + ("default" if arg is None else "explicit-empty" if arg == b"" else
+                                          "explicit-node-secret" if arg == own[nm] else "explicit-other"))
+            if st != "ok":
+                ck.observe("directory-creation-" + st)
+                continue
+            v["cap"] = dn.get_uri()
+            made.append(v)
+        if len(set(v["client"] for v in made if v["secret_arg"] == b"")) == 2:
+            ck.hit("directory-empty-secret-on-two-nodes")
+        lit = [v for v in made if v["cap"].startswith(b"URI:DIR2-LIT:")]
+        chk = [v for v in made if v["cap"].startswith(b"URI:DIR2-CHK:")]
+        for v in made:
+            if v not in lit and v not in chk:
+                ck.violation("immutable-directory-cap-kind", "unexpected cap %r" % v["cap"][:30], dict(desc, variant=_v(v)))
+        if lit:
+            ck.hit("immutable-directory-literal")
+            ck.mon("directory-same-secret-same-cap")
+            if chk or len(set(v["cap"] for v in lit)) > 1:
+                ck.violation("literal-directory-cap-depends-on-secret-or-node",
+                             "%d different caps (%d literal, %d CHK) for one set of children" % (
+                                 len(set(v["cap"] for v in made)), len(lit), len(chk)), dict(desc, variants=[_v(v) for v in made]))
+        # ---- CHK directories: read the packed bytes back, then judge like any other convergent upload
+        directs = {}
+        for v in chk:
+            ck.hit("immutable-directory-chk")
+            filecap = b"URI:CHK:" + v["cap"][len(b"URI:DIR2-CHK:"):]
+            f = parse_chk(filecap)
+            w = dict(desc, variant=_v(v))
+            if f is None:
+                ck.violation("immutable-directory-cap-malformed", "cannot parse %r" % v["cap"], w)
+                continue
+            v["fields"] = f
+            st, res, cons = imm.read_all(g, cl["A"].create_node_from_uri(filecap))
+            if st != "ok":
+                ck.observe("directory-readback-" + st)
+                continue
+            packed = cons.value()
+            v["packed"] = packed
+            if len(packed) <= LIT_MAX:
+                ck.violation("small-file-not-literal", "a %d-byte packed directory got a CHK cap" % len(packed), w)
+            if (f["k"], f["n"], f["size"]) != (k, n, len(packed)):
+                ck.violation("cap-parameters-differ-from-upload", "directory cap says (k,N,size)=%r, client configured %r, packed "
+                             "%d bytes" % ((f["k"], f["n"], f["size"]), (k, n), len(packed)), w)
+            eff = model_effseg(maxseg, len(packed), k)
+            ck.mon("directory-key-model")
+            want = model_key(v["effective"], k, n, eff, packed)
+            if f["key"] != want:
+                why = ""
+                if v["secret_arg"] is not None and f["key"] == model_key(own[v["client"]], k, n, eff, packed):
+                    why = "/explicit-%ssecret-replaced-by-node-secret" % ("empty-" if v["secret_arg"] == b"" else "")
+                ck.violation("immutable-directory-key-differs-from-model" + why,
+                             "directory created with convergence=%r on a node whose own secret is %r: key %s, model "
+                             "SHA256d(netstring(tag+netstring(secret)+netstring('%d,%d,%d'))+packed)[:16] = %s" % (
+                                 v["secret_arg"], own[v["client"]], f["key"].hex(), k, n, eff, want.hex()), w)
+            try:
+                v["si"] = uri.from_string(v["cap"]).get_verify_cap().get_filenode_cap().get_storage_index()
+            except Exception:
+                v["si"] = uri.from_string(filecap).get_storage_index()
+            if v["si"] != model_si(f["key"]):
+                ck.violation("storage-index-differs-from-model", "directory storage index %s != model %s" % (
+                    v["si"].hex(), model_si(f["key"]).hex()), w)
+            # the very same bytes uploaded directly with the same secret must give the very same file cap
+            dk = (v["effective"], packed)
+            if dk not in directs:
+                st, res = g.wait(cl[rng.choice("AB")].upload(Data(packed, convergence=v["effective"])))
+                directs[dk] = res.get_uri() if st == "ok" else None
+            if directs[dk] is not None:
+                ck.mon("directory-equals-direct-upload")
+                if directs[dk] != filecap:
+                    ck.violation("immutable-directory-cap-differs-from-direct-upload",
+                                 "create_immutable_dirnode(children, %r) gave %r, Data(packed, %r) gave %r" % (
+                                     v["secret_arg"], v["cap"], v["effective"], directs[dk]), w)
+        judged = [v for v in chk if "si" in v]
+        for a_i, a in enumerate(judged):
+            for b in judged[a_i + 1:]:
+                w = dict(desc, a=_v(a), b=_v(b))
+                if a["packed"] != b["packed"]:
+                    ck.observe("directory-packing-differs-between-calls")
+                    continue
+                if a["effective"] == b["effective"]:
+                    ck.mon("directory-same-secret-same-cap")
+                    if a["cap"] != b["cap"]:
+                        ck.violation("immutable-directory-same-inputs-different-cap",
+                                     "same children, same secret %r (given as %r on node %s and %r on node %s): different caps" % (
+                                         a["effective"], a["secret_arg"], a["client"], b["secret_arg"], b["client"]), w)
+                else:
+                    ck.mon("directory-secret-changes-storage-index")
+                    if a["si"] == b["si"]:
+                        ck.violation("immutable-directory-storage-index-unchanged-after-changing-secret",
+                                     "directories made with secrets %r and %r share storage index %s" % (
+                                         a["effective"], b["effective"], a["si"].hex()), w)
+        ck.case("immutable-directory", key=("dir", k, n, maxseg, nchild, tuple(sorted((v["client"], v["via"], repr(v["secret_arg"])) for v in made))),
+                nontrivial=bool(chk), sample=dict(desc, variants=[_v(v) for v in made][:5]))
+    finally:
+        g.close()
+
+
+def _v(v):
+    return {k: x for k, x in v.items() if k in ("client", "via", "secret_arg", "effective", "status", "cap")}
 
 
 def judge_one(ck, g, c, s, data, desc, uri, rng):
